@@ -60,7 +60,7 @@ where
         Ok(p) => json!({
             "c": bytes_to_j(p.into_compressed().as_ref()),
             "u": bytes_to_j(p.into_uncompressed().as_ref())}),
-        Err(_) => Value::Null,
+        Err(_) => json!(false),
     };
     let unchecked = e.into_affine_unchecked();
     json!({"checked": dec_res(checked), "unchecked": dec_res(unchecked), "reenc": reenc_c})
@@ -137,6 +137,105 @@ where
         )),
         _ => unreachable!(),
     }
+}
+
+/// C07: points handed out by safe producers (only the produced points are logged)
+fn exec_prod<G: Grp + ClearH + IsogenyMap + OSSWUMap + SerDes>(op: &Value) -> Value
+where
+    G: CurveProjective<Scalar = Fr> + MapToCurve<G>,
+    G::Base: J,
+    G::Affine: CurveAffine<Projective = G, Base = G::Base, Scalar = Fr>,
+    G: pairing::hash_to_curve::HashToCurve<pairing::hash_to_field::ExpandMsgXmd<sha2::Sha256>>,
+    G: pairing::hash_to_curve::HashToCurve<pairing::hash_to_field::ExpandMsgXof<sha3::Shake128>>,
+{
+    use pairing::hash_to_curve::HashToCurve;
+    use pairing::hash_to_field::{ExpandMsgXmd, ExpandMsgXof};
+    let p = || j_to_proj::<G>(&op["p"]);
+    let q = || j_to_proj::<G>(&op["q"]);
+    let outs: Vec<G> = match op["fn"].as_str().unwrap() {
+        "one" => vec![G::one(), <G::Affine as CurveAffine>::one().into_projective(), G::zero()],
+        "random" => {
+            let mut rng = xs_rng(nat_to_words(&op["seed"], 1).unwrap()[0]);
+            (0..op["n"].as_u64().unwrap()).map(|_| G::random(&mut rng)).collect()
+        }
+        "arith" => {
+            let (a, b) = (p(), q());
+            let mut v = vec![];
+            let mut t = a; t.add_assign(&b); v.push(t);
+            let mut t = a; t.sub_assign(&b); v.push(t);
+            let mut t = a; t.add_assign_mixed(&b.into_affine()); v.push(t);
+            let mut t = a; t.double(); v.push(t);
+            let mut t = a; t.negate(); v.push(t);
+            let mut t = a; t.add_assign(&a); v.push(t);
+            let mut t = a; t.sub_assign(&a); v.push(t);
+            v.push(a.into_affine().into_projective());
+            v
+        }
+        "mul" => {
+            let k = scalar_repr(&op["k"]);
+            let a = p();
+            let mut v = vec![];
+            let mut t = a; t.mul_assign(k); v.push(t);
+            v.push(a.into_affine().mul(k));
+            if k.0[3] >> 63 == 0 {
+                let mut ctx = Wnaf::new();
+                v.push(ctx.base(a, 3).scalar(k));
+                let mut ctx2 = Wnaf::new();
+                v.push(ctx2.scalar(k).base(a));
+            }
+            v
+        }
+        "msm" => {
+            let pts: Vec<G::Affine> = op["points"].as_array().unwrap().iter().map(|x| j_to_aff::<G>(x)).collect();
+            let sc = scalars_of(&op["scalars"]);
+            let scr: Vec<&[u64; 4]> = sc.iter().collect();
+            vec![<G::Affine as CurveAffine>::sum_of_products(&pts, &scr)]
+        }
+        "decode" => {
+            let bytes = j_to_bytes(&op["bytes"]);
+            let r = if op["form"] == "c" {
+                let mut e = <<G::Affine as CurveAffine>::Compressed as EncodedPoint>::empty();
+                e.as_mut().copy_from_slice(&bytes);
+                e.into_affine()
+            } else {
+                let mut e = <<G::Affine as CurveAffine>::Uncompressed as EncodedPoint>::empty();
+                e.as_mut().copy_from_slice(&bytes);
+                e.into_affine()
+            };
+            let mut v: Vec<G> = r.ok().into_iter().map(|a| a.into_projective()).collect();
+            let mut cur = Cursor::new(bytes);
+            if let Ok(x) = G::deserialize(&mut cur, op["form"] == "c") {
+                v.push(x);
+            }
+            v
+        }
+        "hash" => {
+            let msg = j_to_bytes(&op["msg"]);
+            let dst = j_to_bytes(&op["dst"]);
+            vec![
+                <G as HashToCurve<ExpandMsgXmd<sha2::Sha256>>>::hash_to_curve(&msg, &dst),
+                <G as HashToCurve<ExpandMsgXmd<sha2::Sha256>>>::encode_to_curve(&msg, &dst),
+                <G as HashToCurve<ExpandMsgXof<sha3::Shake128>>>::hash_to_curve(&msg, &dst),
+                <G as HashToCurve<ExpandMsgXof<sha3::Shake128>>>::encode_to_curve(&msg, &dst),
+            ]
+        }
+        "map" => {
+            let u0 = G::Base::from_j(&op["u0"]);
+            let u1 = G::Base::from_j(&op["u1"]);
+            vec![
+                <G as MapToCurve<G>>::map_to_curve(&u0),
+                <G as MapToCurve<G>>::map_to_curve(&u1),
+                <G as MapToCurve<G>>::map2_to_curve(&u0, &u1),
+            ]
+        }
+        "clear_h" => {
+            let mut t = p();
+            t.clear_h();
+            vec![t]
+        }
+        f => panic!("unknown prod fn {}", f),
+    };
+    Value::Array(outs.iter().map(|x| proj_to_j(x)).collect())
 }
 
 fn xs_rng(seed: u64) -> rand_xorshift::XorShiftRng {
@@ -270,6 +369,11 @@ pub fn exec_misc(st: &mut MiscState, op: &Value) -> Value {
         "insub" => match g {
             "G1" => json!(g1a(&op["p"]).in_subgroup()),
             "G2" => json!(g2a(&op["p"]).in_subgroup()),
+            _ => panic!("bad group"),
+        },
+        "prod" => match g {
+            "G1" => exec_prod::<G1>(op),
+            "G2" => exec_prod::<G2>(op),
             _ => panic!("bad group"),
         },
         "random" => {
